@@ -1,7 +1,7 @@
 """C19 — narrow-phase queries terminate (exit discipline only)."""
 from . import scopes
 from ..core.report import DOMAIN_D
-from ..rules import loops, safediv
+from ..rules import loops, safediv, unpack
 from .common import NARROW_PHASE, lib_module_names
 
 
@@ -18,3 +18,4 @@ def run(idx, rep, tier):
     mods = lib_module_names(idx)        # every loop reachable from a narrow-phase entry point (scope filter), wherever it lives
     loops.r_loop(idx, rep, mods, floor=14)
     safediv.r_safediv(idx, rep, floor=6)
+    unpack.r_unpack(idx, rep, floor=42)
